@@ -83,11 +83,36 @@ func c15funcs(r *report.Report, l *report.Local, in c15in) {
 	cmp("f5star", aks, m.AKStar)
 	// MilenageGenerate
 	autn := make([]byte, 16)
-	res2, ck2, ik2, ak2 := make([]byte, 8), make([]byte, 16), make([]byte, 16), make([]byte, 6)
-	rl := uint(8)
-	if perr := recoverErr(func() { milenage.MilenageGenerate(opc, in.amf, in.k, in.sqn, in.rand, autn, ik2, ck2, ak2, res2, &rl) }); perr != nil {
+	res2, ck2, ik2, ak2 := make([]byte, 16), make([]byte, 16), make([]byte, 16), make([]byte, 6)
+	// the RES buffer and the length handed in are the caller's capacity (8, or a 16-octet buffer as the EPS AKA code uses);
+	// the length reported back is that of RES
+	rl := []uint{8, 16, 9}[c15callSeq%3]
+	c15callSeq++
+	res2 = res2[:rl]
+	// every argument is a window into a larger buffer of the caller (a subscriber record SQN||AMF, a message): what lies
+	// behind the window is not the library's to write
+	win := func(b []byte) (w, whole, keep []byte) {
+		whole = append(append([]byte{}, b...), 0x5a, 0x5a, 0x5a, 0x5a, 0x5a, 0x5a, 0x5a, 0x5a)
+		return whole[:len(b):len(whole)], whole, append([]byte{}, whole...)
+	}
+	wSqn, sqnWhole, sqnKeep := win(in.sqn)
+	wAmf, amfWhole, amfKeep := win(in.amf)
+	wRand, randWhole, randKeep := win(in.rand)
+	if perr := recoverErr(func() { milenage.MilenageGenerate(opc, wAmf, in.k, wSqn, wRand, autn, ik2, ck2, ak2, res2, &rl) }); perr != nil {
 		r.Violate("MilenageGenerate/panic", in.String(), perr.Error(), nil)
 		return
+	}
+	if !bytes.Equal(sqnWhole, sqnKeep) || !bytes.Equal(amfWhole, amfKeep) || !bytes.Equal(randWhole, randKeep) {
+		r.Violate("MilenageGenerate/writes-into-the-caller's-buffers"+c15keyTag, in.String(), fmt.Sprintf("SQN buffer %x (was %x) AMF buffer %x (was %x) RAND buffer %x (was %x)", sqnWhole, sqnKeep, amfWhole, amfKeep, randWhole, randKeep), nil)
+	}
+	res2 = res2[:8]
+	{
+		// the same through F1 directly (the resynchronisation path calls it on the record's own SQN)
+		wS, sW, sK := win(in.sqn)
+		m1, m2 := make([]byte, 8), make([]byte, 8)
+		if perr := recoverErr(func() { milenage.F1(opc, in.k, in.rand, wS, in.amf, m1, m2) }); perr == nil && !bytes.Equal(sW, sK) {
+			r.Violate("f1/writes-into-the-caller's-buffers"+c15keyTag, in.String(), fmt.Sprintf("SQN buffer %x (was %x)", sW, sK), nil)
+		}
 	}
 	cmp("MilenageGenerate/autn", autn, refcrypto.AUTN(in.k, wantOpc, in.rand, in.sqn, in.amf))
 	cmp("MilenageGenerate/res", res2, m.RES)
@@ -110,7 +135,14 @@ func c15funcs(r *report.Report, l *report.Local, in c15in) {
 		}
 	}
 	l.Case("funcs "+in.String(), true, fmt.Sprintf("%x%x", macA, res))
+	// the caller is done with its OPc and clears it (key material): a later derivation for the same K and OP must not be
+	// affected by what the caller does to a result it was given
+	for i := range opc {
+		opc[i] = 0
+	}
 }
+
+var c15callSeq int
 
 // c15check runs Milenage_check on (possibly corrupted) autn with UE sqn, compares with the reference verdict.
 func c15check(r *report.Report, l *report.Local, in c15in, opc []byte, autn []byte, ueSqn []byte, what string) {
